@@ -13,7 +13,7 @@ import "fmt"
 
 const maxListLen = 4
 
-var paramKinds = []string{"req", "opt", "star", "bare", "kwargs", "req-a", "opt-a"}
+var paramKinds = []string{"req", "opt", "star", "bare", "kwargs", "req-a", "opt-a", "star-a", "kwargs-a"}
 
 // paramItem builds the i-th parameter of kind k; the kinds ending in -a use the
 // fixed name a (duplicates), the others a position-specific name.
@@ -30,6 +30,10 @@ func paramItem(k string, i int) *Node {
 		return pstar("")
 	case "kwargs":
 		return pstarstar(name)
+	case "star-a": // *a and **a take part in the duplicate-name rule like any other parameter
+		return pstar("a")
+	case "kwargs-a":
+		return pstarstar("a")
 	case "req-a":
 		return param("a")
 	case "opt-a":
@@ -103,6 +107,24 @@ func forEachListProgram(f func(idx int64, name string, file *Node) bool) {
 		})
 		if !ok {
 			return
+		}
+	}
+	// long keyword lists: n distinct names, then one more that repeats the name at position j
+	// (a checker may keep the first few names apart from the rest)
+	for _, n := range []int{7, 8, 9, 10, 16, 17, 33} {
+		for j := -1; j < n; j++ {
+			var as []*Node
+			for i := 0; i < n; i++ {
+				as = append(as, named(fmt.Sprintf("k%d", i), num(i)))
+			}
+			name := fmt.Sprintf("call[%d distinct keywords]", n)
+			if j >= 0 {
+				as = append(as, named(fmt.Sprintf("k%d", j), num(99)))
+				name = fmt.Sprintf("call[%d distinct keywords, then k%d again]", n, j)
+			}
+			if !emit(name, exprStmt(okCall(as...))) {
+				return
+			}
 		}
 	}
 	for n := 0; n <= maxListLen; n++ {
